@@ -198,3 +198,19 @@ Print Assumptions C16_fold_fixed_full.
 Print Assumptions C16_lines_reach_parser.
 Print Assumptions C16_body_lines_reach_function.
 Print Assumptions C16_func_tail_is_source_regex.
+(** Round 9 (regexgen): the positional-parameter test of the model IS the regex of scripting::is_args_in_token
+    (dollar, optional brace, digits or at-signs, optional brace, searched anywhere in the token): equal on every text to
+    the search of the AST regenerated from scripting.rs on every run (Gen/ScriptArgsRegexes.v). *)
+From Cicada Require Gen.ScriptArgsRegexes Proofs.ArgsRegexProofs.
+Theorem C16_args_in_token_is_source_regex : forall s,
+  Args.is_args_in_token s = Regex.rx_search Gen.ScriptArgsRegexes.rx_args_in_token s.
+Proof. exact Proofs.ArgsRegexProofs.is_args_in_token_is_source_regex. Qed.
+Check C16_args_in_token_is_source_regex : forall s,
+  Args.is_args_in_token s = Regex.rx_search Gen.ScriptArgsRegexes.rx_args_in_token s.
+Example C16_args_regex_nonvacuous :
+  Regex.rx_search Gen.ScriptArgsRegexes.rx_args_in_token [97;36;123;49;125]%N = true /\
+  Regex.rx_search Gen.ScriptArgsRegexes.rx_args_in_token [36;64]%N = true /\
+  Regex.rx_search Gen.ScriptArgsRegexes.rx_args_in_token [36;123;97]%N = false /\
+  Regex.rx_search Gen.ScriptArgsRegexes.rx_args_in_token [36;97]%N = false.
+Proof. vm_compute. repeat split. Qed.
+Print Assumptions C16_args_in_token_is_source_regex.
